@@ -76,7 +76,8 @@ def snap_tx(t):
         except Exception:
             raw = None
         return {'txid': t.txid, 'version': t.version_int, 'locktime': t.locktime, 'block_height': t.block_height,
-                'fee': t.fee, 'inputs': ins, 'outputs': outs, 'spent': [o.spent for o in t.outputs], 'raw': raw}
+                'fee': t.fee, 'inputs': ins, 'outputs': outs, 'spent': [o.spent for o in t.outputs], 'raw': raw,
+                'confirmations': t.confirmations}
     except Exception as e:
         return {'unsnappable': type(e).__name__}
 
@@ -87,7 +88,7 @@ def is_tx(x):
 
 
 def strict_part(s):
-    return {k: v for k, v in s.items() if k not in ('spent',)}
+    return {k: v for k, v in s.items() if k not in ('spent', 'confirmations')}
 
 
 # ---------------------------------------------------------------------------------------------
@@ -530,6 +531,9 @@ class C20:
         srv.results_cache_n = 0
         self._pre_model = None
         self._pre_addr = None
+        self._pre_cover = None
+        if name == 'gettransactions':
+            self._pre_cover = ('set', self.cached_address_cover(srv, args[0]))
         if name == 'getutxos':
             self._pre_addr = ('set', self.cached_address_row(srv, args[0]))
         if name == 'gettransactions' and kwargs.get('after_txid'):
@@ -729,6 +733,7 @@ class C20:
             ok, why = self.tx_matches_fact(ret)
             if not ok and not self.poisoned():
                 w.violation('cache_infidelity', sig, 'cached transaction %s: %s' % (txid[:16], why))
+            self.check_cached_confirmations(ret, sig)
         if ret.txid != txid and not self.poisoned():
             w.violation('fabricated_tx', sig, 'asked %s got %s' % (txid[:16], ret.txid[:16]))
 
@@ -760,6 +765,7 @@ class C20:
         for t in ret[:n_cache]:
             if not is_tx(t):
                 w.violation('fabricated_txs', sig, 'cache part contains %r' % short(t))
+            self.check_cached_confirmations(t, sig)
             s = snap_tx(t)
             found = False
             for f in self.facts_tx.get(s.get('txid'), []):
@@ -792,8 +798,11 @@ class C20:
             heights = [t.block_height for t in page if is_tx(t) and t.block_height]
             if isinstance(asked, int) and asked > 0 and len(page) >= asked and heights:
                 row = self.cached_address_cover(srv, address)
+                before = self._pre_cover[1] if self._pre_cover else None
+                before = before[0] if before and before[0] is not None else -1
                 w.probe('full_provider_page')
-                if row is not None and row[0] is not None and row[0] > max(heights):
+                # (a claim that was there before the call may stand; this call must not raise it beyond what it was given)
+                if row is not None and row[0] is not None and row[0] > max(heights) and row[0] > before:
                     w.violation('cache_claims_more_than_it_was_given', sig,
                                 'gettransactions(%s): the provider page was full (%d of %d asked, last block %d) but the '
                                 'cache records the address as complete up to block %d' %
@@ -822,6 +831,23 @@ class C20:
             w.violation('duplicate_transactions', dict(sig, cause='same_block_cache_order' if same_block else 'other'),
                         'history of %s lists a transaction twice: %s (heights %s)' %
                         (address, [i[:8] for i in ids], heights))
+
+    def check_cached_confirmations(self, t, sig):
+        """A transaction served from the cache carries a confirmation count the cache computes itself, from a block
+        count: that block count has to be one a provider answered at some time."""
+        if self.poisoned() or not t.block_height:
+            return
+        c = t.confirmations
+        self.w.probe('cached_confirmations_checked')
+        # (with a block count older than the transaction's block the figure may be 0 or below: still arithmetic on an
+        # answer some provider gave)
+        possible = {bc - t.block_height + 1 for bc in self.facts_bc if isinstance(bc, int) and not isinstance(bc, bool)}
+        # ... or the count a provider gave with the transaction itself (stored with it)
+        possible |= {f.get('confirmations') for f in self.facts_tx.get(t.txid, [])}
+        if isinstance(c, bool) or not isinstance(c, int) or c not in possible:
+            self.w.violation('fabricated_confirmations', sig,
+                             'cached transaction %s in block %s served with confirmations=%r' %
+                             (t.txid[:16], t.block_height, c))
 
     def check_cache_part_after(self, srv, address, after_txid, part):
         """gettransactions(address, after_txid=X) with a cache part: every provider told the truth about one chain, so
